@@ -322,6 +322,33 @@ class Gen:
         self.count("restricted_join")
         return True
 
+    def half_registered(self):
+        """a session that only sent NICK (or only USER) ends — by QUIT, DELETE or KILL — and somebody else then
+        wants its nickname"""
+        r = self.rng
+        sid = self.create()
+        nick = r.choice(["ghost", "Ghost", "gh[st", self.nick() or "ghost2"])
+        first = r.choice(["NICK " + nick, "NICK " + nick, "USER u 0 * :half"])
+        self.line(sid, first)
+        if r.random() < 0.3:
+            self.line(sid, "JOIN #a")          # refused with 451
+        k = r.random()
+        if k < 0.45:
+            self.line(sid, r.choice(["QUIT", "QUIT :bye"]))
+        elif k < 0.9:
+            self.delete(sid)
+        else:
+            pass                                 # stays around
+        self.sessions.pop(sid, None) if k < 0.9 else None
+        other = self.create()
+        self.line(other, "NICK " + nick)
+        self.line(other, "USER u 0 * :second")
+        self.sessions[other]["registered"] = True
+        self.sessions[other]["nick"] = nick
+        self.ops.append("D")
+        self.count("half_registered")
+        return True
+
     def unpriv_attempt(self):
         """a plain member (not the channel operator) tries the privileged commands, in all the shapes that mix
         queries with changes"""
@@ -489,6 +516,8 @@ class Gen:
             elif x < 0.46 and self.restricted_join():
                 pass
             elif x < 0.50 and self.unpriv_attempt():
+                pass
+            elif x < 0.515 and self.half_registered():
                 pass
             else:
                 self.client_line(r.choice(live))
